@@ -20,7 +20,10 @@ def scenarios(ctx):
     if not ctx.quick:
         lens += [3600 + r for r in range(12)]                                  # every residue of the length modulo 12
         lens += sorted({w + k * (w - 576) + d for w in (1200, 2400) for k in (1, 2, 3) for d in (-1, 0, 1)})   # around whole strides
-    ws = [1200, 2400, 3612, 60000]
+        lens += [1199 - r for r in range(0, 24, 5)] + [60001, 61237, 120011]     # shorter than every window; beyond the default window
+        lens += [7200 + r for r in range(1, 12)] + [301, 577, 1153, 2305]    # short recordings (the taper needs 144 samples, the filter padding more); one overlap + 1
+        lens = sorted(set(lens))
+    ws = [1200, 2400, 3612, 60000] if ctx.quick else [1200, 1812, 2400, 3612, 6000, 60000]
     k = 0
     for ns in lens:
         for w in ws:
